@@ -94,7 +94,7 @@ class EngineE:
             step["order"] = g.choice(["F", "C"])
         elif op == "tensor_from_function":
             step["shape"] = self._shape(g)
-            step["fn"] = g.choice(["arange_1d", "arange_F", "arange_C", "ones_F", "const_1d"])
+            step["fn"] = g.choice(["arange_1d", "arange_F", "arange_C", "ones_F", "const_1d", "arange_strided", "arange_window"])
         elif op in ("sptenrand", "sp_from_function"):
             shape = self._shape(g)
             size = int(np.prod(shape))
@@ -415,11 +415,22 @@ class EngineE:
                 return np.ascontiguousarray(base.reshape(s, order="F"))
             if name == "ones_F":
                 return np.ones(s, order="F")
+            if name in ("arange_strided", "arange_window"):
+                # the requested values as a view that is contiguous in neither order: every second element of a larger
+                # table / a window of a larger C-ordered table
+                target = base.reshape(s, order="F")
+                big = np.full(tuple(2 * int(v) + 1 for v in s), -7.0)
+                if name == "arange_strided":
+                    view = big[tuple(slice(0, 2 * int(v), 2) for v in s)]
+                else:
+                    view = big[tuple(slice(1, int(v) + 1) for v in s)]
+                view[...] = target
+                return view
             return np.full(n, 2.5)
 
         T = self.ttb.tensor.from_function(fn, shape)
         self._last = T
-        want = {"arange_1d": base.reshape(shape, order="F"), "arange_F": base.reshape(shape, order="F"), "arange_C": base.reshape(shape, order="F"), "ones_F": np.ones(shape), "const_1d": np.full(shape, 2.5)}[name]
+        want = {"arange_1d": base.reshape(shape, order="F"), "arange_F": base.reshape(shape, order="F"), "arange_C": base.reshape(shape, order="F"), "arange_strided": base.reshape(shape, order="F"), "arange_window": base.reshape(shape, order="F"), "ones_F": np.ones(shape), "const_1d": np.full(shape, 2.5)}[name]
         if tuple(T.shape) != shape or T.data.shape != shape:
             return V("exact_shape", f"from_function shape {T.shape}")
         if not np.array_equal(T.data, want):
